@@ -7,7 +7,7 @@
    earlier versions of the code (kept for the refuted statements).  Single promise: Join is not
    in this model. *)
 From CV Require Import Promise.Promise Promise.PromiseProofs Promise.PromiseStepProofs Promise.MuProofs
-  Promise.PromiseTheorems Promise.PromiseLive.
+  Promise.PromiseTheorems Promise.PromiseLive Promise.PromiseProxies Promise.PromiseJoin Promise.PromiseJoinProofs Promise.PromiseJoinThms.
 Open Scope Z_scope.
 
 (* the promise resolves at most once; Fulfill/Reject after the first one panics (OPanic), the
@@ -115,9 +115,18 @@ Theorem C11_result_lifetime_refuted :
 Proof. exact result_lifetime_refuted. Qed.
 Print Assumptions C11_result_lifetime_refuted.
 
-(* NOT proved: proxy_clients_resolved_and_released (every proxy handed out ends up with the result's
-   capability as target once Fulfill/Reject returned, and released once ReleaseClients returned);
-   checked by the correspondence run only.  Join / joined chains are not modelled. *)
+(* pipelined clients handed out earlier end up referring to the resolved capability (what the result holds
+   at their path) once Fulfill/Reject has returned, and are released once the ReleaseClients call that took
+   the table has returned (outcome ORet; calls that found it already taken return ONoop) *)
+Theorem C11_proxy_clients_resolved_and_released : forall ops c, reach fixed ops c ->
+  (forall t th, nth_error (threads c) t = Some th -> is_res_op (t_op th) = true -> t_pc th = PDone ->
+     t_out th = ORet ->
+     forall x px, nth_error (proxies c) x = Some px ->
+       px_target px = Some (res_dest (op_res (t_op th)) (px_path px))) /\
+  (forall t th, nth_error (threads c) t = Some th -> t_op th = ORelease -> t_pc th = PDone -> t_out th = ORet ->
+     forall x px, nth_error (proxies c) x = Some px -> px_rel px = true).
+Proof. exact proxy_clients_resolved_and_released. Qed.
+Print Assumptions C11_proxy_clients_resolved_and_released.
 
 (* no_stuck FAILS on the model of the code before the deadlock repair: a concrete deadlocked
    configuration (replayed on the real code at the time: corpus/C11-promise.txt) *)
@@ -129,3 +138,43 @@ Theorem C11_no_stuck_refuted :
   end.
 Proof. exact no_stuck_refuted. Qed.
 Print Assumptions C11_no_stuck_refuted.
+
+(* Join (model PromiseJoin.v; theorems over all interleavings are for the single-promise model): the seeded
+   change C11-3 (resolve no longer closes p.joined) and the code as found (F11c, nil client table) are refuted by
+   concrete histories, replayed on the real code (corpus/C11-promise.txt) *)
+Theorem C11_join_resolve_refuted :
+  match jquiesce jseed3 1000 (jinit 2 seed3_history) 7 with
+  | Some c => forallb (fun t => negb (jenabled jseed3 c t)) (jall_tids c) = true /\
+              jfinished c 4 = false /\ jfinished c 5 = false /\ jfinished c 6 = true /\ all_mu_free c = true
+  | None => False
+  end.
+Proof. exact join_resolve_refuted. Qed.
+Print Assumptions C11_join_resolve_refuted.
+
+Theorem C11_join_nil_table_refuted :
+  match jquiesce jf11c 1000 (jinit 2 f11c_history) 3 with
+  | Some c => match nth_error (jthreads c) 1 with
+              | Some th => j_out th = OPanic | None => False end /\
+              jmutex_blocked c 2 = true /\ all_mu_free c = false
+  | None => False
+  end.
+Proof. exact join_nil_table_refuted. Qed.
+Print Assumptions C11_join_nil_table_refuted.
+
+(* exactly-once on a promise and its joined chain (model with Join), all variants, any number of promises,
+   every op list and interleaving: count part (at most once always, exactly once when returned).
+   PARTIAL for chains: the destination part and no_stuck are proved for the single-promise model only. *)
+Theorem C11_join_pipelined_exactly_once_partial : forall v np ops c, jreach v np ops c ->
+  forall t th, nth_error (jthreads c) t = Some th ->
+    match j_op th with
+    | JSend _ _ _ =>
+      (cnt (is_deliver t) (jevents c) <= 1)%nat /\
+      (j_pc th = QDone -> cnt (is_deliver t) (jevents c) = 1%nat)
+    | JCall _ _ =>
+      (cnt (is_deliver t) (jevents c) <= 1)%nat /\
+      (j_pc th = QDone -> (j_out th = ONoSlot /\ cnt (is_deliver t) (jevents c) = 0%nat) \/
+                          (j_out th = ORet /\ cnt (is_deliver t) (jevents c) = 1%nat))
+    | _ => True
+    end.
+Proof. exact join_pipelined_exactly_once. Qed.
+Print Assumptions C11_join_pipelined_exactly_once_partial.
